@@ -233,6 +233,11 @@ func c13Apply(t *htree, st *State, m *qmodel, op qop, blockID *int) *qviol {
 		m.body = map[int]*fakeBlock{}
 	case "clearafter":
 		st.ClearBlockRequestsAfter(c13ctx, t.hash[op.A])
+		if m.proc >= 0 && op.A == m.proc {
+			// the fork point is the block in processing: every outstanding block is beyond it
+			m.seq = nil
+			m.body = map[int]*fakeBlock{}
+		}
 		for i, n := range m.seq {
 			if n == op.A {
 				for _, d := range m.seq[i+1:] {
@@ -447,92 +452,97 @@ func c13Random(rep *verifkit.Report) {
 		if !verifkit.Mine(ci) {
 			continue
 		}
-		r := verifkit.Rand("C13/random", ci)
-		big := c13BigTree(r)
-		t := big.t
-		st, m := c13Fresh(t)
-		blockID := 0
-		var ops []qop
-		fp := ""
-		nontrivial := false
-		maxReq := 0
-		for step := 0; step < 80; step++ {
-			var op qop
-			snap := st.VerifQueue()
-			switch k := r.Intn(100); {
-			case k < 30: // announce the child of the tail (main chain or a fork), sometimes wrong
-				tail := m.tail()
-				var kids []int
-				for c, p := range t.parent {
-					if p == tail {
-						kids = append(kids, c)
+		ci := ci
+		verifkit.RunCase(rep, ci, func() {
+			r := verifkit.Rand("C13/random", ci)
+			big := c13BigTree(r)
+			t := big.t
+			st, m := c13Fresh(t)
+			blockID := 0
+			var ops []qop
+			fp := ""
+			nontrivial := false
+			maxReq := 0
+			for step := 0; step < 80; step++ {
+				var op qop
+				snap := st.VerifQueue()
+				switch k := r.Intn(100); {
+				case k < 30: // announce the child of the tail (main chain or a fork), sometimes wrong
+					tail := m.tail()
+					var kids []int
+					for c, p := range t.parent {
+						if p == tail {
+							kids = append(kids, c)
+						}
 					}
-				}
-				if len(kids) > 0 && r.Intn(10) > 0 {
-					c := kids[r.Intn(len(kids))]
-					op = qop{Op: "announce", A: c, B: tail}
-				} else {
-					c := 1 + r.Intn(len(t.hash)-1)
-					op = qop{Op: "announce", A: c, B: t.parent[c]}
-					if op.B < 0 {
-						op.B = 0
+					if len(kids) > 0 && r.Intn(10) > 0 {
+						c := kids[r.Intn(len(kids))]
+						op = qop{Op: "announce", A: c, B: tail}
+					} else {
+						c := 1 + r.Intn(len(t.hash)-1)
+						op = qop{Op: "announce", A: c, B: t.parent[c]}
+						if op.B < 0 {
+							op.B = 0
+						}
 					}
-				}
-			case k < 55: // deliver: mostly a requested block, any position
-				if len(snap.Requested) > 0 && r.Intn(8) > 0 {
-					h := snap.Requested[r.Intn(len(snap.Requested))].Hash
-					op = qop{Op: "deliver", A: t.index[h], Size: sizes[r.Intn(len(sizes))]}
-				} else {
-					op = qop{Op: "deliver", A: r.Intn(len(t.hash)), Size: sizes[r.Intn(len(sizes))]}
-				}
-			case k < 68:
-				op = qop{Op: "pop"}
-			case k < 72:
-				op = qop{Op: "finish"}
-			case k < 88:
-				op = qop{Op: "next"}
-			case k < 90:
-				op = qop{Op: "clearall"}
-			case k < 97: // fork among pending: clear after an outstanding block, then announce a fork child
-				if len(m.seq) > 0 {
-					op = qop{Op: "clearafter", A: m.seq[r.Intn(len(m.seq))]}
-				} else {
-					op = qop{Op: "clearafter", A: r.Intn(len(t.hash))}
-				}
-			default:
-				op = qop{Op: "setlast", A: r.Intn(len(t.hash))}
-				if len(m.seq) > 0 { // only meaningful with an empty queue (after a revert)
+				case k < 55: // deliver: mostly a requested block, any position
+					if len(snap.Requested) > 0 && r.Intn(8) > 0 {
+						h := snap.Requested[r.Intn(len(snap.Requested))].Hash
+						op = qop{Op: "deliver", A: t.index[h], Size: sizes[r.Intn(len(sizes))]}
+					} else {
+						op = qop{Op: "deliver", A: r.Intn(len(t.hash)), Size: sizes[r.Intn(len(sizes))]}
+					}
+				case k < 68:
+					op = qop{Op: "pop"}
+				case k < 72:
+					op = qop{Op: "finish"}
+				case k < 88:
 					op = qop{Op: "next"}
+				case k < 90:
+					op = qop{Op: "clearall"}
+				case k < 97: // fork among pending: clear after an outstanding block, then announce a fork child
+					if m.proc >= 0 && r.Intn(4) == 0 {
+						op = qop{Op: "clearafter", A: m.proc} // fork at the block in processing
+					} else if len(m.seq) > 0 {
+						op = qop{Op: "clearafter", A: m.seq[r.Intn(len(m.seq))]}
+					} else {
+						op = qop{Op: "clearafter", A: r.Intn(len(t.hash))}
+					}
+				default:
+					op = qop{Op: "setlast", A: r.Intn(len(t.hash))}
+					if len(m.seq) > 0 { // only meaningful with an empty queue (after a revert)
+						op = qop{Op: "next"}
+					}
+				}
+				ops = append(ops, op)
+				v := c13Apply(t, st, m, op, &blockID)
+				after := st.VerifQueue()
+				if len(after.Requested) > maxReq {
+					maxReq = len(after.Requested)
+				}
+				acc := len(after.Requested)+len(after.ToRequest) != len(snap.Requested)+len(snap.ToRequest)
+				fp += fmt.Sprintf("%s%v,", op.Op[:2], acc)
+				if op.Op == "clearall" || op.Op == "clearafter" || maxReq >= c13Window || m.bytes() > maxPendingBlockSize {
+					nontrivial = true
+				}
+				rep.Event("random_op:"+op.Op, 1)
+				if v != nil {
+					rep.Finding(ci, "C13/"+v.rule+"/after-"+op.Op, v.detail+" | ops: "+opsString(ops),
+						map[string]interface{}{"engine": "random", "ops": ops})
+					break
 				}
 			}
-			ops = append(ops, op)
-			v := c13Apply(t, st, m, op, &blockID)
-			after := st.VerifQueue()
-			if len(after.Requested) > maxReq {
-				maxReq = len(after.Requested)
+			if maxReq >= c13Window {
+				rep.Event("random_cases_reaching_window", 1)
 			}
-			acc := len(after.Requested)+len(after.ToRequest) != len(snap.Requested)+len(snap.ToRequest)
-			fp += fmt.Sprintf("%s%v,", op.Op[:2], acc)
-			if op.Op == "clearall" || op.Op == "clearafter" || maxReq >= c13Window || m.bytes() > maxPendingBlockSize {
-				nontrivial = true
+			if m.bytes() > maxPendingBlockSize {
+				rep.Event("random_cases_above_byte_limit", 1)
 			}
-			rep.Event("random_op:"+op.Op, 1)
-			if v != nil {
-				rep.Finding(ci, "C13/"+v.rule+"/after-"+op.Op, v.detail+" | ops: "+opsString(ops),
-					map[string]interface{}{"engine": "random", "ops": ops})
-				break
+			rep.Case(fp, nontrivial)
+			if rep.WantSample() {
+				rep.Sample(map[string]interface{}{"engine": "random", "case": ci, "ops": opsString(ops)})
 			}
-		}
-		if maxReq >= c13Window {
-			rep.Event("random_cases_reaching_window", 1)
-		}
-		if m.bytes() > maxPendingBlockSize {
-			rep.Event("random_cases_above_byte_limit", 1)
-		}
-		rep.Case(fp, nontrivial)
-		if rep.WantSample() {
-			rep.Sample(map[string]interface{}{"engine": "random", "case": ci, "ops": opsString(ops)})
-		}
+		})
 	}
 }
 
